@@ -675,7 +675,8 @@ impl<'a> BinaryReader<'a> {
 fn parse_bundles_section(data: &[u8]) -> Result<Vec<NativeBundle>> {
     let mut cursor = Cursor::new(data);
     let count = read_u32_from(&mut cursor)? as usize;
-    let mut bundles = Vec::with_capacity(count);
+    // every bundle takes at least four u32 length fields: do not trust the count for more
+    let mut bundles = Vec::with_capacity(count.min(data.len() / 16));
     for _ in 0..count {
         let name = read_string_from(&mut cursor, "bundle name")?;
         let target = read_string_from(&mut cursor, "bundle target")?;
